@@ -291,6 +291,8 @@ def main(argv):
                 "11 burst of 40 bad peers, 12 peer away and back, 13 ZMTP/2.0 peer of incompatible type, 20 reconnect pacing (accept, hold 60 ms, drop), 21 accept-and-drop-at-once listener, 30 event burst, 31 socket-creation burst); "
                 "non-trivial = at least one computed delay / every stack scenario; distinct by case JSON")
     C.proof_stage(res, PROP, ["theories/Corr/C17Corr.vo"])
+    from . import optlib
+    optlib.options_stage(res, PROP, [18, 21], n_quick=100, theorems_note='C17_reconnect_option_semantics, C17_reconnect_max_option_caps')
     rng = random.Random(seed)
     n = 400 if tier == "quick" else 6000
     cases = gen_bo(rng, n) + gen_iso(tier)
